@@ -93,6 +93,10 @@ def run(ctx):
         if exact_terms_ok(r.terms) and exact_terms_ok(r2.terms):
             add('commutator', '(fcomm_check %s %s %s && facomm_check %s %s %s)' % (coq_fop(a), coq_fop(b), coq_fop(r), coq_fop(a), coq_fop(b), coq_fop(r2)),
                 {'call': 'commutator/anticommutator', 'a': tdict(a), 'b': tdict(b)}, key=repr((a.terms, b.terms)))
+        if i % 4 == 3:
+            # op1 on modes disjoint from op2 and op3; odd-parity words included (fermionic operators on disjoint modes need not commute)
+            a = mk_fermion(of, {tuple((j + nm, x) for j, x in t): v for t, v in rand_fermion_terms(rng, 2, rng.randint(1, 2), maxlen=rng.choice([1, 1, 2, 3])).items()})
+            b = mk_fermion(of, rand_fermion_terms(rng, nm, rng.randint(1, 2), maxlen=rng.choice([1, 2, 2]))); c = mk_fermion(of, rand_fermion_terms(rng, nm, rng.randint(1, 2), maxlen=rng.choice([1, 1, 3])))
         dc = of.double_commutator(a, b, c)
         if exact_terms_ok(dc.terms):
             add('double_commutator', '(fdcomm_check %s %s %s %s && is_normal_ordered_fermi %s)' % (coq_fop(a), coq_fop(b), coq_fop(c), coq_fop(dc), coq_fop(dc)),
